@@ -210,8 +210,9 @@ def make_numpy():
     m.where = lambda c, a=None, b=None: T.where(c, a, b, cls=NDArray)
     m.nonzero = lambda x: x.nonzero()
     m.unique = T.unique
-    m.sum = lambda x, axis=None, **k: x.sum(axis=axis)
-    m.cumsum = lambda x, axis=None, dtype=None: x.cumsum(axis=axis)
+    _nd = lambda x: x if isinstance(x, Arr) else NDArray(_obj(x))
+    m.sum = lambda x, axis=None, **k: _nd(x).sum(axis=axis)
+    m.cumsum = lambda x, axis=None, dtype=None: _nd(x).cumsum(axis=axis)
     m.abs = lambda x: abs(x)
     m.minimum = lambda a, b: NDArray(T._min2(_obj(a), _obj(b))) if isinstance(a, Arr) or isinstance(b, Arr) else core.s_min(a, b)
     m.maximum = lambda a, b: NDArray(T._max2(_obj(a), _obj(b))) if isinstance(a, Arr) or isinstance(b, Arr) else core.s_max(a, b)
@@ -525,6 +526,8 @@ class DataFrame:
         return DataFrame({k: list(v) for k, v in self.data.items()})
 
     def __getitem__(self, k):
+        if isinstance(k, list):          # column selection
+            return DataFrame({c: list(self.data[c]) for c in k})
         if isinstance(k, Arr):           # boolean row mask
             m = T.concretize_bool_array(k.a)
             return DataFrame({c: [v for v, keep in zip(self.data[c], m) if keep] for c in self.columns})
